@@ -211,6 +211,59 @@ def timestamp_decode_rule(ctx):
     return out
 
 
+def decimal_context_rule(ctx):
+    """The decimal codec does its arithmetic under the caller's context
+    (28 digits by default, enough for the 10 digits of a 32-bit unscaled
+    value): it installs no context of its own.  -> [(construct, ok, why)]"""
+    import ast as _ast
+    prog = ctx.prog
+    funcs = {}
+    for mod, desc in (('encode', pairs.enc_desc), ('decode',
+                                                   pairs.dec_desc)):
+        fi = prog.module(mod).functions.get('decimal')
+        if fi is None:
+            continue
+        funcs[fi.qualname] = fi
+        for short, _c, _s, _d in desc(ctx, fi).interp.calls:
+            f_ = prog.functions.get('pamqp.' + short.split(' ')[0])
+            if f_ is not None:
+                funcs[f_.qualname] = f_
+    hits = []
+    for fi in funcs.values():
+        for n in _ast.walk(fi.node):
+            if not isinstance(n, (_ast.Name, _ast.Attribute)):
+                continue
+            try:
+                tgt = prog.resolve_static(fi.module, n, fi.module)
+            except Exception:
+                continue
+            if isinstance(tgt, tuple) and tgt and tgt[0] == 'ext' and \
+                    tgt[1] in ('decimal.ExtendedContext',
+                               'decimal.BasicContext'):
+                hits.append('%s (9 digits) at %s:%d' % (
+                    tgt[1], fi.module.relpath, n.lineno))
+        for n in _ast.walk(fi.node):
+            # Context(prec=k) / something.prec = k with a constant k < 10
+            if isinstance(n, _ast.keyword) and n.arg == 'prec' and \
+                    isinstance(n.value, _ast.Constant) and \
+                    isinstance(n.value.value, int) and n.value.value < 10:
+                hits.append('prec=%d at %s:%d' % (
+                    n.value.value, fi.module.relpath, n.value.lineno))
+            if isinstance(n, _ast.Assign) and len(n.targets) == 1 and \
+                    isinstance(n.targets[0], _ast.Attribute) and \
+                    n.targets[0].attr == 'prec' and \
+                    isinstance(n.value, _ast.Constant) and \
+                    isinstance(n.value.value, int) and n.value.value < 10:
+                hits.append('.prec = %d at %s:%d' % (
+                    n.value.value, fi.module.relpath, n.lineno))
+    return [('decimal arithmetic context', not hits,
+             '%d functions on the decimal path, none installs a context of '
+             'fewer than 10 digits' % len(funcs) if not hits else
+             'the decimal codec computes under a context of fewer than the '
+             '10 digits a 32-bit unscaled value can have (%s): the value '
+             'is rounded' % '; '.join(sorted(set(hits))[:3]))]
+
+
 def decimal_accept_rule(ctx):
     """Acceptance of the decimal encoder: no explicit guard on a return
     path excludes a scale in 0..255 or an unscaled value in the signed
